@@ -171,10 +171,16 @@ def rdflib_write_case(draw, max_len=14, phys=None):
                 "frame_size": 250, "preset": [4000, 150, 32],
                 "params": {"generalized": False, "rdf_star": False, "stream_name": ""}, "statements": stmts,
                 "reader": draw(st.sampled_from(["parse", "to_graph", "flat", "grouped", "parse_path", "parse_path_guess_format"]))}
+    empty_graphs = []
+    if phys != "TRIPLES" and entry not in ("flat_to_file",) and draw(st.integers(0, 3)) == 0:
+        # named graphs registered in the Dataset that hold no triples (ds.graph(name), or left after removals)
+        empty_graphs = draw(st.lists(st.one_of(gen.iri_pool, st.sampled_from([["bnode", "eg"], ["iri", "http://empty.example/g#e"]])),
+                                     min_size=1, max_size=2))
     return {
         "integration": "rdflib",
         "entry": entry,
         "phys": phys,
+        "empty_graphs": empty_graphs,
         "logical": logical,
         "delimited": delimited,
         "frame_size": draw(gen.frame_sizes),
@@ -185,7 +191,7 @@ def rdflib_write_case(draw, max_len=14, phys=None):
     }
 
 
-def rdflib_container(stmts, phys, bindings=None):
+def rdflib_container(stmts, phys, bindings=None, empty_graphs=()):
     import rdflib
     from rdflib import Dataset, Graph
 
@@ -194,13 +200,16 @@ def rdflib_container(stmts, phys, bindings=None):
         for s in stmts:
             g.add(tuple(T.to_rdflib(t) for t in s[:3]))
     else:
-        g = Dataset(bind_namespaces="none") if bindings is not None else Dataset()
+        g = Dataset()  # (no bind_namespaces argument: a Dataset always starts with rdflib's default bindings)
         for s in stmts:
             trip = tuple(T.to_rdflib(t) for t in s[:3])
             if s[3][0] == "default":
                 g.add(trip)
             else:
                 g.add((*trip, g.graph(T.to_rdflib(s[3]))))
+    if phys != "TRIPLES":
+        for name in empty_graphs or ():
+            g.graph(T.to_rdflib(name))  # registered; stays empty unless the statements name it too
     for pfx, ns in bindings or ():
         g.bind(pfx, rdflib.URIRef(ns), override=True, replace=True)
     return g
@@ -213,6 +222,10 @@ def write_rdflib(case):
     entry = case["entry"]
     stmts = case["statements"]
     phys = case["phys"]
+
+    def rdflib_container(stmts, phys):  # the case's container, with its registered-but-empty graphs
+        return globals()["rdflib_container"](stmts, phys, empty_graphs=case.get("empty_graphs"))
+
     if entry in ("serialize", "serialize_dest"):
         g = rdflib_container(stmts, phys)
         stream = pyj.make_stream(case, "rdflib")
@@ -297,7 +310,7 @@ def expected_rdflib(case):
     """Ground truth = what the rdflib container built from the input holds (statement generators: the terms)."""
     if case["entry"] in ("flat_to_file", "flat_to_file_default"):
         return {T.norm_stmt([T.rdflib_canon(t) for t in s]) for s in case["statements"]}
-    cont = rdflib_container(case["statements"], case["phys"])
+    cont = rdflib_container(case["statements"], case["phys"], empty_graphs=case.get("empty_graphs"))
     return {T.norm_stmt(s) for s in pyj.sink_events(cont, "rdflib")}
 
 
